@@ -127,19 +127,36 @@ fn write_chunk(dir: &Path, name: u32, blocks: &[Blk]) {
 enum Query { All, Tip, Origin, Specific(u64, Vec<u8>) }
 enum Ans { Blocks(Vec<(u64, Vec<u8>)>), Err(i64), Panic(i64), Tip(Option<(u64, Vec<u8>)>) }
 
-fn hash_z(h: &[u8]) -> String { if h.is_empty() { "1".into() } else { format!("0x01{}", hex(h)) } }
-fn coq_query(q: &Query) -> String {
-    match q { Query::All => "QAll".into(), Query::Tip => "QTip".into(), Query::Origin => "QFrom Origin".into(),
-              Query::Specific(s, h) => format!("QFrom (Specific {} {})", s, hash_z(h)) }
+/// Injective encoding of hashes (byte strings) as Coq integers.  Real databases: the
+/// big-endian value of 0x01 :: bytes (as in Generated/ImmutableTestChain.v).  Databases
+/// written by the harness: a per-run numbering (pool block i -> i + 2, any other byte
+/// string -> the next free number from 10^7 on); the empty string is always 1.  The model
+/// only compares hashes for equality and with the empty hash.
+struct Enc { real: bool, ids: HashMap<Vec<u8>, u64>, next: u64 }
+impl Enc {
+    fn id(&mut self, h: &[u8]) -> u128 {
+        if h.is_empty() { return 1; }
+        if self.real { let mut r = 0u128; let k = h.len().saturating_sub(8); for b in &h[k..] { r = r * 256 + *b as u128; }
+                       if h.len() < 8 { r += 1u128 << (8 * h.len()); } return r & ((1u128 << 60) - 1); }
+        if let Some(v) = self.ids.get(h) { return *v as u128; }
+        let v = self.next; self.next += 1; self.ids.insert(h.to_vec(), v); v as u128
+    }
+    fn z(&mut self, h: &[u8]) -> String {
+        if h.is_empty() { "1".into() } else if self.real { format!("0x01{}", hex(h)) } else { self.id(h).to_string() }
+    }
 }
-const MODULUS: u128 = 2305843009213693951;
-fn mix(h: u128, v: u128) -> u128 { (h * 1000003 + v) % MODULUS }
-fn hash_mod(h: &[u8]) -> u128 { let mut r = 1u128; for b in h { r = (r * 256 + *b as u128) % MODULUS; } r }
-fn coq_answer(a: &Ans) -> String {
+fn coq_query(q: &Query, enc: &mut Enc) -> String {
+    match q { Query::All => "QAll".into(), Query::Tip => "QTip".into(), Query::Origin => "QFrom Origin".into(),
+              Query::Specific(s, h) => format!("QFrom (Specific {} {})", s, enc.z(h)) }
+}
+const MASK61: u128 = 2305843009213693951;   // 2^61 - 1
+fn mix(h: u128, v: u128) -> u128 { (h * 1000003 + v) & MASK61 }
+fn coq_answer(a: &Ans, enc: &mut Enc) -> String {
     match a {
-        Ans::Blocks(l) => { let mut h = 7u128; for (s, x) in l { h = mix(mix(h, *s as u128), hash_mod(x)); } format!("ABlocks {} {}", l.len(), h) }
+        // hash over (slot, low 60 bits of the encoded hash)
+        Ans::Blocks(l) => { let mut h = 7u128; for (s, x) in l { h = mix(mix(h, *s as u128), enc.id(x) & ((1u128 << 60) - 1)); } format!("ABlocks {} {}", l.len(), h) }
         Ans::Err(e) => format!("AErr {}", e), Ans::Panic(p) => format!("APanic {}", p),
-        Ans::Tip(None) => "ATip None".into(), Ans::Tip(Some((s, h))) => format!("ATip (Some ({},{}))", s, hash_z(h)),
+        Ans::Tip(None) => "ATip None".into(), Ans::Tip(Some((s, h))) => format!("ATip (Some ({},{}))", s, enc.z(h)),
     }
 }
 fn txt_blocks(l: &[(u64, Vec<u8>)]) -> String {
@@ -266,7 +283,7 @@ fn queries_for(rng: &mut Rng, chain: &[Blk], pool_hashes: &[Vec<u8>], budget: us
     slots.sort(); slots.dedup();
     for s in slots { q.push(Query::Specific(s, vec![])); }
     // absent exact points
-    let nab = if dense { budget.max(20) } else { (budget / 2).max(8) };
+    let nab = (if dense { budget.max(20) } else { (budget / 2).max(8) }).min(300);
     for _ in 0..nab {
         let i = rng.below(n as u64) as usize;
         let b = &chain[i];
@@ -295,7 +312,8 @@ impl Fix for Query {
 struct ScratchDir(PathBuf);
 impl Drop for ScratchDir { fn drop(&mut self) { let _ = std::fs::remove_dir_all(&self.0); } }
 
-fn run_db(db: &Db, queries: &[Query], tag: &str, id: &mut Ident, oracle_only: bool, check_oracle: bool, stats: &mut (u64, u64)) {
+fn run_db(db: &Db, queries: &[Query], tag: &str, id: &mut Ident, enc: &mut Enc, oracle_only: bool, check_oracle: bool, stats: &mut (u64, u64)) {
+    enc.real = db.real.is_some();
     let chain = db.chain();
     let mut pairs = vec![];
     for q in queries {
@@ -306,12 +324,12 @@ fn run_db(db: &Db, queries: &[Query], tag: &str, id: &mut Ident, oracle_only: bo
                 if !ok { emit_oracle_fail(key, &format!("{} query={} answer={} expected={}", txt_db(db), txt_query(q), txt_answer(&a), want)); }
             }
         }
-        pairs.push(format!("({},{})", coq_query(q), coq_answer(&a)));
+        pairs.push(format!("({},{})", coq_query(q, enc), coq_answer(&a, enc)));
     }
     if oracle_only { return; }
     let src = match &db.real {
         Some(names) => format!("RealDb {}", coq_list(names, |n| n.to_string())),
-        None => format!("LitDb {}", coq_list(&db.chunks, |c| format!("({},{})", c.0, coq_list(&c.1, |b| format!("({},{},{})", b.slot, hash_z(&b.hash), b.number))))),
+        None => { let mut parts = vec![]; for c in &db.chunks { let mut bs = vec![]; for b in &c.1 { bs.push(format!("({},{},{})", b.slot, enc.z(&b.hash), b.number)); } parts.push(format!("({},[{}])", c.0, bs.join(";"))); } format!("LitDb [{}]", parts.join(";")) }
     };
     for part in pairs.chunks(60) {
         emit_case(tag, &format!("({},[{}])", src, part.join(";")));
@@ -336,6 +354,7 @@ fn main() {
     for b in &pool { id.map.insert((b.bytes.len(), fnv(&b.bytes)), (b.slot, b.hash.clone())); }
     let pool_hashes: Vec<Vec<u8>> = pool.iter().map(|b| b.hash.clone()).collect();
     let mut stats = (0u64, 0u64);
+    let mut enc = Enc { real: true, ids: pool.iter().enumerate().map(|(i, b)| (b.hash.clone(), i as u64 + 2)).collect(), next: 10_000_000 };
 
     // 1. every contiguous subset of the chunk files of the test database
     let nr = real.len();
@@ -352,13 +371,20 @@ fn main() {
         let chain = db.chain();
         let full = lo == 0 && hi == nr - 1;
         let budget = if thorough { if full { 100000 } else { 150 } } else if full { (a.n / 8).max(10) } else { (a.n / 40).max(4) };
-        let dense = thorough && full;
         let mut qs = queries_for(&mut rng, &chain, &pool_hashes, budget, false);
-        if dense {
-            // every block as exact point was requested by the budget; add every slot inside each chunk's range
-            for r in &real[lo..hi] { if let (Some(f), Some(l)) = (r.blocks.first(), r.blocks.last()) { for s in f.slot..=l.slot { qs.push(Query::Specific(s, vec![])); } } }
+        if thorough && full {
+            // every block was taken as exact point (budget >= chain length) together with the
+            // representatives of every gap (a-1, a, a+1, midpoint, b-1); add every single slot
+            // of a few windows: start / end of each chunk file and around random blocks
+            for r in &real[lo..hi] {
+                if let (Some(f), Some(l)) = (r.blocks.first(), r.blocks.last()) {
+                    for s in f.slot.saturating_sub(50)..f.slot + 250 { qs.push(Query::Specific(s, vec![])); }
+                    for s in l.slot.saturating_sub(250)..l.slot + 50 { qs.push(Query::Specific(s, vec![])); }
+                    for _ in 0..3 { let c = r.blocks[rng.below(r.blocks.len() as u64) as usize].slot; for s in c.saturating_sub(100)..c + 100 { qs.push(Query::Specific(s, vec![])); } }
+                }
+            }
         }
-        run_db(&db, &qs, if full { "real-full-db" } else { "real-chunk-subset" }, &mut id, a.oracle_only, true, &mut stats);
+        run_db(&db, &qs, if full { "real-full-db" } else { "real-chunk-subset" }, &mut id, &mut enc, a.oracle_only, true, &mut stats);
         if stats.0 < 8 { emit_sample(&txt_db(&db)); }
     } }
 
@@ -393,7 +419,7 @@ fn main() {
         let dense = chain.len() <= 12 && !chain.is_empty() && chain[chain.len() - 1].slot - chain[0].slot < 600;
         let qs = queries_for(&mut rng, &chain, &pool_hashes, budget, dense);
         let tag = if !wf { "rechunked-with-empty-chunk" } else if chain.is_empty() { "rechunked-no-immutable-chunk" } else { "rechunked" };
-        run_db(&db, &qs, tag, &mut id, a.oracle_only, wf, &mut stats);
+        run_db(&db, &qs, tag, &mut id, &mut enc, a.oracle_only, wf, &mut stats);
         if k < 2 { emit_sample(&txt_db(&db)); }
     }
     emit_stat("queries_oracle", stats.0);
